@@ -11,7 +11,7 @@ RULE = ("corpus (5 hand-written instances incl. tests/test_pedigreephasing.py::t
         "and pairs of unrelated trios (individual order, trio order and numeric sample ids permuted), trusted genotypes (random, mostly Mendelian-consistent) or phred triples (distrust mode, with "
         "arbitrary ignored genotypes), recombination costs 0-8 incl. zeros, explicit `positions` incl. columns no read covers "
         "and interior read variants at positions that are not phased; plus a malformed stream of trusted-genotype instances "
-        "with a Mendelian conflict (must raise). Generated coverage is kept <= 6 (trios <= 5, quartets <= 4, deeper pedigrees <= 3). A case is non-trivial if it has >= 2 "
+        "with a Mendelian conflict (must raise). Generated coverage is kept <= 6 (trios <= 5, quartets <= 4, deeper pedigrees <= 3) plus a few trio-free instances with coverage up to 9. A case is non-trivial if it has >= 2 "
         "columns, >= 2 reads and some column with coverage >= 2; distinct = distinct instance.")
 TRUSTED = [
     "modelled, not verified: Gray-code enumeration with incremental cost update (update_partitioning; the model "
@@ -39,7 +39,7 @@ Import ListNotations.
 """
 
 CHECKS = {
-    "pre": "fun c => wf (fst c) && no_overflow (fst c)",      # the generator stays inside the theorem's hypotheses
+    "pre": "fun c => andb (wf (fst c)) (no_overflow (fst c))",      # the generator stays inside the theorem's hypotheses
     "L2cost": "fun c => l2_cost (fst c) (snd c)",
     "L2alleles": "fun c => l2_alleles (fst c) (snd c)",
     "L2witness": "fun c => l2_witness (fst c) (snd c)",
@@ -667,6 +667,8 @@ def run(ctx):
         insts.append(gen_instance(rng, kind=rng.choice(["trio", "trio", "quartet"]), mode="gt", conflict=True))
     for _ in range(ctx.n(10, 120)):      # deeper / wider pedigrees: three generations, two unrelated trios
         insts.append(gen_instance(rng, kind=rng.choice(["threegen", "twotrios"])))
+    for _ in range(ctx.n(6, 150)):      # high coverage (up to 9 reads in one column), no trios
+        insts.append(gen_instance(rng, kind=rng.choice(["single", "two"]), maxcov=rng.randint(7, 9), maxreads=9))
     if not ctx.quick:
         ex = exhaustive_small()
         ctx.extra["exhaustive_spaces"] = ("all 3x3 and 2x4 unit-weight gap-free matrices of one heterozygous individual (%d instances "
